@@ -530,7 +530,12 @@ def _shard(task: Tuple[int, int, int, str, float]) -> Report:
             if any("nm" in s for s in sigs):
                 lab.append("named-imem-operand")
             sample = None
-            if rep.evaluations % 1499 == 7:
+            if rep.evaluations % 1499 == 7 or (vs and not rep.extra.get("_sampled_violating")) or \
+                    (len(sigs) == 2 and not vs and not rep.extra.get("_sampled_ok2")):
+                if vs:
+                    rep.extra["_sampled_violating"] = 1
+                elif len(sigs) == 2:
+                    rep.extra["_sampled_ok2"] = 1
                 sample = {"code": code.hex(), "text": info.get("text"), "reassembled": info.get("reassembled"),
                           "where": where, "violations": [v.fingerprint for v in vs]}
             rep.case(ntkey, lab, sample)
@@ -560,6 +565,8 @@ def run(ctx: Ctx) -> Report:
     deadline = ctx.t0 + TIME_BUDGET[ctx.tier]
     reports = ctx.pmap(_shard, [(i, nshards, ctx.seed, ctx.tier, deadline) for i in range(nshards)])
     rep = ctx.merge_reports(reports)
+    for k in [k for k in rep.extra if k.startswith("_")]:
+        del rep.extra[k]
     rep.rule = RULE
     rep.exhaustive = False
     rep.assumptions = list(ASSUMPTIONS)
